@@ -1,12 +1,12 @@
 (* The hand-written SRP model feeds SHA-1 exactly the field sequences that tools/extract_layouts.py
    read off the Rust chains (Layouts.v, regenerated on every run; parameters are listed in
-   alphabetical order of the Rust expressions).  A reordered, added, dropped or duplicated field in
+   the order of the Rust fn signature, then of its let-definitions).  A reordered, added, dropped or duplicated field in
    the source breaks one of these obligations. *)
 From WS Require Import lib.Bytes lib.Sha1 Consts Layouts model.Bigint model.Key model.Srp model.WorldProof.
 Local Opaque sha1.
 
 Lemma layout_calculate_x U P salt :
-  calculate_x U P salt = sha1 (lay_srp_internal_calculate_x_1 (sha1 (lay_srp_internal_calculate_x_0 P U)) salt).
+  calculate_x U P salt = sha1 (lay_srp_internal_calculate_x_1 salt (sha1 (lay_srp_internal_calculate_x_0 U P))).
 Proof. reflexivity. Qed.
 
 Lemma layout_calculate_u A B : calculate_u A B = sha1 (lay_srp_internal_calculate_u_0 A B).
@@ -17,7 +17,7 @@ Lemma layout_interleaved_halves E F :
 Proof. split; reflexivity. Qed.
 
 Lemma layout_server_proof A M1 K :
-  calculate_server_proof A M1 K = sha1 (lay_srp_internal_calculate_server_proof_0 M1 A K).
+  calculate_server_proof A M1 K = sha1 (lay_srp_internal_calculate_server_proof_0 A M1 K).
 Proof. reflexivity. Qed.
 
 Lemma layout_xor_hash n g :
@@ -26,22 +26,22 @@ Proof. reflexivity. Qed.
 
 Lemma layout_client_proof U K A B salt :
   calculate_client_proof U K A B salt =
-  sha1 (lay_srp_internal_calculate_client_proof_1 xor_hash A salt B K (sha1 (lay_srp_internal_calculate_client_proof_0 U))).
+  sha1 (lay_srp_internal_calculate_client_proof_1 K A B salt (sha1 (lay_srp_internal_calculate_client_proof_0 U)) xor_hash).
 Proof. reflexivity. Qed.
 
 Lemma layout_reconnect_proof U cd sd K :
-  calculate_reconnect_proof U cd sd K = sha1 (lay_srp_internal_calculate_reconnect_proof_0 cd sd K U).
+  calculate_reconnect_proof U cd sd K = sha1 (lay_srp_internal_calculate_reconnect_proof_0 U cd sd K).
 Proof. reflexivity. Qed.
 
 Lemma layout_client_proof_custom U K A B salt n' g :
   calculate_client_proof_with_custom_value U K A B salt n' g =
-  sha1 (lay_srp_internal_client_calculate_client_proof_with_custom_value_1 A salt B K
-          (sha1 (lay_srp_internal_client_calculate_client_proof_with_custom_value_0 U)) (calculate_xor_hash n' g)).
+  sha1 (lay_srp_internal_client_calculate_client_proof_with_custom_value_1 K A B salt (calculate_xor_hash n' g)
+          (sha1 (lay_srp_internal_client_calculate_client_proof_with_custom_value_0 U))).
 Proof. reflexivity. Qed.
 
 Lemma layout_world_proof U K ss cs :
   calculate_world_server_proof U K ss cs =
-  sha1 (lay_vanilla_header_internal_calculate_world_server_proof_0 (le32 cs) (le32 ss) K U).
+  sha1 (lay_vanilla_header_internal_calculate_world_server_proof_0 U K (le32 ss) (le32 cs)).
 Proof. reflexivity. Qed.
 
 Print Assumptions layout_client_proof.
